@@ -160,7 +160,7 @@ def expected(case):
             return hx(I(0) - I(1))
         if op == "uchecked_sub":
             return opt(hx(I(0) - I(1)) if I(0) >= I(1) else None)
-        if op in ("umul", "umul_u64", "imul", "imul_i64"):
+        if op in ("umul", "umul_u64", "imul", "imul_i64", "umul_vv", "umul_vr", "umul_rv", "umul_assign", "umul_assign_v", "imul_vv", "imul_vr", "imul_rv", "imul_assign"):
             return hx(I(0) * I(1))
         if op == "ineg":
             return hx(-I(0))
@@ -169,9 +169,9 @@ def expected(case):
                 return "PANIC"
             q, r = tdiv(I(0), I(1))
             return "%s %s" % (hx(q), hx(r))
-        if op in ("udiv", "idiv", "udiv_u64", "idiv_i64", "u64_div_u", "i64_div_i"):
+        if op in ("udiv", "idiv", "udiv_u64", "idiv_i64", "u64_div_u", "i64_div_i", "udiv_vv", "udiv_assign", "idiv_vv", "idiv_assign"):
             return "PANIC" if I(1) == 0 else hx(tdiv(I(0), I(1))[0])
-        if op in ("urem", "irem", "urem_u64", "irem_i64", "u64_rem_u", "i64_rem_i"):
+        if op in ("urem", "irem", "urem_u64", "irem_i64", "u64_rem_u", "i64_rem_i", "urem_vv", "urem_assign", "irem_vv", "irem_assign"):
             return "PANIC" if I(1) == 0 else hx(tdiv(I(0), I(1))[1])
         if op in ("udiv_ceil", "idiv_ceil"):
             return "PANIC" if I(1) == 0 else hx(-((-I(0)) // I(1)))
@@ -519,6 +519,18 @@ def bank(pid, tier, seed):
             cases.append(("imul", hx(-big(rng, la)), hx(big(rng, lb))))
         for a, b in signed(pairs(10)):
             cases.append(("imul", hx(a), hx(b)))
+        for a, b in pairs(12):
+            for op in ("umul_vv", "umul_vr", "umul_rv", "umul_assign", "umul_assign_v"):
+                cases.append((op, hx(a), hx(b)))
+        for a, b in signed(pairs(4)):
+            for op in ("imul_vv", "imul_vr", "imul_rv", "imul_assign"):
+                cases.append((op, hx(a), hx(b)))
+        # (B^k + c)^2-like shapes: cross term of Karatsuba with both differences of the same sign and full length
+        for kl in (33, 35, 67, 101):
+            for c in (1, 3, (1 << 64) - 1):
+                x = (1 << (128 * kl)) + c
+                cases.append(("umul", hx(x), hx(x)))
+                cases.append(("umul", hx(x), hx(x + 2)))
         for a, _ in pairs(20):
             for s in EDGE:
                 cases.append(("umul_u64", hx(a), hx(s)))
@@ -527,6 +539,12 @@ def bank(pid, tier, seed):
             for x, y in ((a, b), (a * b + (b // 2 if b else 0), b), (a * b, b), (a, a), (a + 1, a), (a, a + 1)):
                 for op in ("udivrem", "udiv", "urem", "udiv_ceil", "uchecked_div", "uchecked_div_rem_euclid", "uchecked_rem_euclid"):
                     cases.append((op, hx(x), hx(y)))
+        for a, b in pairs(8):
+            for op in ("udiv_vv", "udiv_assign", "urem_vv", "urem_assign"):
+                cases.append((op, hx(a), hx(b)))
+        for a, b in signed(pairs(5)):
+            for op in ("idiv_vv", "idiv_assign", "irem_vv", "irem_assign"):
+                cases.append((op, hx(a), hx(b)))
         for a, b in signed(pairs(6)):
             for op in ("idivrem", "idiv", "irem", "idiv_floor", "imod_floor", "idiv_mod_floor", "idiv_ceil", "idiv_euclid", "irem_euclid",
                        "idiv_rem_euclid", "ichecked_div", "ichecked_div_euclid", "ichecked_rem_euclid", "ichecked_div_rem_euclid"):
